@@ -154,7 +154,7 @@ class C14(System):
 
     def configs(self, tier, seed):
         cfgs = [(k, e, w) for k in self.kinds for e in self.extras for w in self.warms
-                if not (e == 'view' and k in ('l', 'g'))]
+                if not (e == 'view' and k in ('l', 'l1', 'g'))]
         if self.only is not None: cfgs = [c for c in cfgs if c in self.only]
         n = seed % len(cfgs)
         return cfgs[n:] + cfgs[:n]
@@ -170,6 +170,10 @@ class C14(System):
         if kind == 'l':
             st.TA, st.TB = 298.15, 350.0
             s = tmo.Stream(None, Water=1.0, Ethanol=2.5, phase='l', T=st.TA, thermo=A)
+        elif kind == 'l1':
+            # total flow EXACTLY 1 kmol/hr (flows given as mole fractions)
+            st.TA, st.TB = 298.15, 350.0
+            s = tmo.Stream(None, Water=0.25, Ethanol=0.75, phase='l', T=st.TA, thermo=A)
         elif kind == 'g':
             st.TA, st.TB = 400.0, 450.0
             s = tmo.Stream(None, Water=1.0, Ethanol=2.5, phase='g', T=st.TA, thermo=A)
@@ -248,6 +252,15 @@ class C14(System):
         acts += [('T', 's', TA), ('T', 's', TB)]
         acts += [('flow', 's', 1.0), ('flow', 's', 3.0)]
         acts += [('scale', 2.0), ('scale', 0.5)]
+        # documented context managers: the stream is put into a temporary state, a property is read INSIDE, the state is restored
+        if deep: acts.append(('temp', 'T', 'H'))
+        else:
+            acts += [('temp', 'T', 'H'), ('temp', 'flow', 'H'), ('temp', 'P', 'V')]
+            if not multi: acts.append(('temp', 'phase', 'H'))
+        if not multi and (not deep or st.cfg[0] == 'l1'):
+            # composition-only edits between states whose total is exactly 1 kmol/hr
+            acts += [('comp', 0.25), ('comp', 0.75)]
+            if not deep: acts.append(('comp', 0.0))
         if not multi: acts.append(('phase', 'g' if s.phase != 'g' else 'l'))
         else:
             acts.append(('shift', 0.5))        # move half of the liquid water to the gas phase: only the phase split changes
@@ -332,6 +345,28 @@ class C14(System):
             how, kind = self._check_read(st, nm, q)
             st.last = how
             return ('r', q, how, kind)
+        if op == 'temp':
+            _, what, q = a
+            if what == 'phase':
+                try: ctx = s.temporary_phase('g' if s.phase != 'g' else 'l')
+                except Exception as e: raise Rejected(f'temporary_phase:{type(e).__name__}', cut=True)
+            else:
+                if what == 'T': kw = dict(T=st.TB if s.T != st.TB else st.TA)
+                elif what == 'P': kw = dict(P=5e5 if s.P != 5e5 else 101325.0)
+                else:
+                    t = _truth(s)
+                    kw = dict(flow=2.0 * (np.array(t[2]) if t[0] == 'M' else t[2]))
+                ctx = s.temporary(**kw)
+            try:
+                entered = ctx.__enter__()
+            except Exception as e:
+                raise Rejected(f'temporary_{what}:{type(e).__name__}', cut=True)
+            try:
+                how, kind = self._check_read(st, 's', q)
+            finally:
+                ctx.__exit__(None, None, None)
+            st.last = how
+            return ('temp', what, q, how, kind)
         if op == 'probe':
             _, nm = a
             hows = []
@@ -375,6 +410,11 @@ class C14(System):
             x = getattr(st, a[1])
             key = ('l', 'Water') if _is_multi(x) else 'Water'
             x.imol[key] = a[2]; return 'ok'
+        if op == 'comp':
+            s.empty()
+            if a[1]: s.imol['Water'] = a[1]
+            if 1.0 - a[1]: s.imol['Ethanol'] = 1.0 - a[1]
+            return 'ok'
         if op == 'scale':
             s.scale(a[1]); return 'ok'
         if op == 'phase':
@@ -453,21 +493,21 @@ class C14(System):
 
     # ---- evidence ----------------------------------------------------------------------------------------------------
     def nontrivial(self, st, a, obs):
-        return a[0] in ('r', 'probe') and st.last in ('hit', 'invalidate')
+        return a[0] in ('r', 'probe', 'temp') and st.last in ('hit', 'invalidate')
 
     def outcome(self, st, a, obs):
         return repr((a[0], a[1] if a[0] in ('r', 'probe', 'T', 'flow') else None, obs, type(st.s).__name__, self._sat(st)))[:300]
 
 
-_CORE = (('l', 'none', False), ('g', 'none', False), ('m', 'none', False), ('mc', 'none', False), ('m1', 'none', False),
+_CORE = (('l', 'none', False), ('l1', 'none', False), ('g', 'none', False), ('m', 'none', False), ('mc', 'none', False), ('m1', 'none', False),
          ('l', 'proxy', True), ('m', 'proxy', True), ('l', 'link', True), ('mc', 'link', True), ('m', 'view', True))
-_DEEP = (('l', 'none', False), ('l', 'proxy', False), ('l', 'link', False), ('m', 'none', False), ('m', 'proxy', False),
+_DEEP = (('l', 'none', False), ('l1', 'none', False), ('l', 'proxy', False), ('l', 'link', False), ('m', 'none', False), ('m', 'proxy', False),
          ('m', 'link', False), ('m', 'view', False), ('m1', 'none', False), ('m1', 'view', False))
 SYSTEMS = [
     # every mutator x every read (x every satellite) from all cold and warm starts
-    C14('c14.wide', 'full', 2, 3, ('l', 'g', 'm', 'mc', 'm1'), ('none', 'proxy', 'link', 'view'), tcap_t=900),
+    C14('c14.wide', 'full', 2, 3, ('l', 'l1', 'g', 'm', 'mc', 'm1'), ('none', 'proxy', 'link', 'view'), tcap_t=900),
     # the same alphabet, one level deeper, from the core starts (satellites can also be created by actions)
-    C14('c14.full', 'full', 3, 4, ('l', 'g', 'm', 'mc', 'm1'), ('none', 'proxy', 'link', 'view'), only=_CORE, tcap_q=150, tcap_t=900),
+    C14('c14.full', 'full', 3, 4, ('l', 'l1', 'g', 'm', 'mc', 'm1'), ('none', 'proxy', 'link', 'view'), only=_CORE, tcap_q=150, tcap_t=900),
     # reduced alphabet (restoring mutations, whole-phase moves, reads through every object), deep histories
-    C14('c14.deep', 'deep', 5, 7, ('l', 'm', 'm1'), ('none', 'proxy', 'link', 'view'), warm=(False,), only=_DEEP, tcap_q=120, tcap_t=600),
+    C14('c14.deep', 'deep', 5, 7, ('l', 'l1', 'm', 'm1'), ('none', 'proxy', 'link', 'view'), warm=(False,), only=_DEEP, tcap_q=120, tcap_t=600),
 ]
